@@ -20,12 +20,39 @@ def equivcheck (inp d : Input) (u u' : List ℚ) (perm : List Nat) : Bool :=
     perm.isPerm (List.range inp.n) && (l.map (Jump.relabel (C03.permFun inp.n perm))).isPerm l'
   | _, _ => false
 
-/-- protocol: `u ; u' ; perm # input1 # input2` → `<check> <form1> <form2>` -/
+/-- covering map site-of-description-2 → site-of-description-1 (supercell / conventional cell) -/
+def projFun (n' n : Nat) (hn : 0 < n) (proj : List Nat) : Fin n' → Fin n :=
+  fun i => if h : proj.getD i.val 0 < n then ⟨proj.getD i.val 0, h⟩ else ⟨0, hn⟩
+
+/-- Decidable covering check: description 2 (`d`, m times as many sites per cell) covers description 1 (`inp`):
+    every site of 1 has exactly m preimages, and the jumps leaving a site `i` of 2 are, relabelled, the jumps
+    leaving its image with weights divided by m. -/
+def covercheck (inp d : Input) (u u' : List ℚ) (proj : List Nat) (m : Nat) : Bool :=
+  if hn : 0 < inp.n then
+    decide (0 < m) &&
+    ((List.finRange inp.n).all fun k =>
+      (List.finRange d.n).countP (fun i => projFun d.n inp.n hn proj i = k) == m) &&
+    match network inp u u, network d u' u' with
+    | some l, some l' =>
+      (List.finRange d.n).all fun i =>
+        ((l'.filter (fun a => a.src = i)).map (Jump.relabel (projFun d.n inp.n hn proj))).isPerm
+          ((l.filter (fun a => a.src = projFun d.n inp.n hn proj i)).map (Jump.scale (1 / (m : ℚ))))
+    | _, _ => false
+  else false
+
+/-- protocol: `u ; u' ; perm # input1 # input2` → `<check> <form1> <form2>`;
+    `u ; u' ; proj ; m # input1 # input2` → `<covercheck> <form1> <form2>` -/
 def handle (line : String) : String :=
   match line.splitOn "#" with
   | [hd, s1, s2] =>
     match parseInput s1.trimAscii.toString, parseInput s2.trimAscii.toString,
           (hd.splitOn ";").map (·.trimAscii.toString) with
+    | some i1, some i2, [u, u', proj, m] =>
+      match parseRatList? u, parseRatList? u', parseNatList? proj, m.toNat? with
+      | some u, some u', some proj, some m =>
+        let show' : Option ℚ → String := fun o => match o with | none => "invalid" | some x => showRat x
+        s!"{if covercheck i1 i2 u u' proj m then 1 else 0} {show' (form i1 u u)} {show' (form i2 u' u')}"
+      | _, _, _, _ => "bad-request"
     | some i1, some i2, [u, u', perm] =>
       match parseRatList? u, parseRatList? u', parseNatList? perm with
       | some u, some u', some perm =>
